@@ -64,6 +64,7 @@ func init() {
 	reg(propCfg{ID: "C15", Level: "exploration", Quick: q(16, 2000), Thorough: th(16, 40000)})
 	reg(propCfg{ID: "C16", Level: "exploration", Quick: q(16, 2500), Thorough: th(16, 60000)})
 	reg(propCfg{ID: "C17", Level: "exploration", Quick: q(16, 2000), Thorough: th(16, 40000)})
+	reg(propCfg{ID: "C19", Level: "exploration", Quick: q(16, 1500), Thorough: th(16, 30000)})
 	reg(propCfg{ID: "C18", Level: "exploration", Quick: q(16, 3000), Thorough: th(16, 80000)})
 	reg(propCfg{ID: "C05", Level: "exploration", Quick: q(16, 3000), Thorough: th(16, 80000)})
 	reg(propCfg{ID: "C06", Level: "exploration", Quick: q(16, 3000), Thorough: th(16, 50000)})
